@@ -1,7 +1,7 @@
 (* KvTrace.v - the step checkers of Trace.v accept every step of the model (soundness), lifted to whole
    histories by KvFrame.walk_sound_gen.  With these the statements "chk_Cxx_kv accepts the model's trace of
    every well-formed case" are theorems, not evaluations.                                           *)
-From Rosmar Require Import Base Json Crc Hlc HlcProofs Kv Store Trace KvTac KvRowOk KvLift KvFrame KvC01 KvC05.
+From Rosmar Require Import Base Json Crc Hlc HlcProofs Kv Store Trace KvTac KvRowOk KvLift KvFrame KvC01 KvC05 KvC07.
 
 Lemma obs_absent cid k xn : row_absent (obs_of cid k xn None) = true.
 Proof. reflexivity. Qed.
@@ -14,6 +14,40 @@ Qed.
 
 Lemma obsrow_eqb_refl o : obsrow_eqb o o = true.
 Proof. unfold obsrow_eqb. destruct (obsrow_eq_dec o o); [reflexivity | congruence]. Qed.
+
+(* ---- the frame of a key-value call, in full ---- *)
+Lemma frame_full_step s x o colls keys xn n0 n1 : store_ok s -> tables_ok s -> wf_sop o ->
+  let res := sstep s x o in
+  chk_step_frame_full (with_next (snap s colls keys xn) n0) x o
+    (mkOstep (sr_resp res) (fevents_of (sr_events res)) (sr_dump res) (with_next (snap (sr_store res) colls keys xn) n1)) = true.
+Proof.
+  intros Hs Ht Hwf. cbv zeta. destruct o; cbn [chk_step_frame_full]; try reflexivity.
+  cbn [os_snap with_next sn_rows]. apply forallb_forall. intros e He.
+  destruct (sspair_eqb (fst e) (coll, key)) eqn:Eq; [reflexivity|]. cbn [orb].
+  destruct (look (fst e) (sn_rows (snap s colls keys xn))) as [o0|] eqn:El; [|reflexivity].
+  destruct e as [[c' k'] ob]. cbn [fst snd] in *.
+  apply look_snap in El. destruct El as (cid0 & Ec0 & ->).
+  apply In_snap_rows in He. cbn [fst snd] in He. destruct He as (cid' & Ec' & ->).
+  cbn [sstep] in *. destruct (coll_id s coll) as [cid|] eqn:Ec.
+  - rewrite coll_id_kv_on in Ec'. rewrite Ec0 in Ec'. inversion Ec'; subst cid'.
+    rewrite kv_on_frame; [apply obsrow_eqb_refl|].
+    intros E. inversion E; subst.
+    assert (c' = coll) by (eapply coll_id_inj; eauto; apply Ht). subst.
+    unfold sspair_eqb in Eq. cbn in Eq. rewrite !String.eqb_refl in Eq. discriminate.
+  - cbn [sr_store] in Ec'. rewrite Ec0 in Ec'. inversion Ec'; subst. apply obsrow_eqb_refl.
+Qed.
+
+Theorem frame_full_sound c : wf_case c -> walk chk_step_frame_full (snap0 c) (sc_steps c) (srun c) = true.
+Proof.
+  intros Hwf. unfold snap0, srun.
+  apply (walk_sound_gen chk_step_frame_full frame_full_step c (sc_steps c) store0 0 store0_ok store0_tables_ok Hwf).
+Qed.
+
+Theorem C07_full_sound c : wf_case c -> chk_C07_full (c, srun c) = true.
+Proof.
+  intros H. unfold chk_C07_full, chk_C07_kv. cbn [fst snd].
+  rewrite (chk_kv_sound chk_row_C07 KvC07.C07_row_sound c H). exact (frame_full_sound c H).
+Qed.
 
 (* ---- which rows a snapshot has ---- *)
 Lemma In_snap_rows_keys s colls keys xn e : In e (sn_rows (snap s colls keys xn)) ->
